@@ -1,7 +1,7 @@
 (* Dispatcher of the model area: component tree -- parse, serialise, walk, used time zones
    (C01 C02 C04 C09 C10 C18 C20).  Definitions only. *)
 Require Import Lib.Base Lib.Chain Gen.Gen_parser Gen.Gen_cal Model.Text Model.Params Model.Fold Model.Contentline
-        Model.Dispatch Model.Tree.
+        Model.Dispatch Model.Tree Model.TreeOps.
 From Coq Require Import String.
 Local Open Scope string_scope.
 
@@ -123,6 +123,27 @@ Definition dispatch_tree (f : list N) (a : jv) : option jv :=
         | _, _ => junsupported
         end
     | _ => junsupported end
+  else if is f "tree_eq" then
+    (* Component.__eq__ over a value-equality table: values carry ids in their text slot;
+       pairs = [[idA, idB, 0/1] ...]; a missing pair means "not equal" *)
+    Some match a with
+    | JL [x; y; JL pairs] =>
+        match comp_of x, comp_of y with
+        | Some cx, Some cy =>
+            let tbl := flat_map (fun p => match p with JL [JS i; JS j; JZ b] => [((i, j), negb (b =? 0)%Z)] | _ => [] end) pairs in
+            let veq := fun v w : value =>
+              match find (fun e : (list N * list N) * bool => str_eqb (fst (fst e)) (v_text v) && str_eqb (snd (fst e)) (v_text w)) tbl with
+              | Some e => snd e | None => false end in
+            jbool (comp_eq veq cx cy)
+        | _, _ => junsupported
+        end
+    | _ => junsupported end
+  else if is f "tree_paths" then
+    Some match a with
+    | c => match comp_of c with
+           | Some c' => JL (map (fun p => JL (map jnat p)) (paths c'))
+           | None => junsupported end
+    end
   else if is f "tree_used_tzids" then
     Some match a with
     | c => match comp_of c with Some c' => JL (map jpval (used_tzids c')) | None => junsupported end
